@@ -39,6 +39,28 @@ static const char* sigName(int s) {
     case SIGILL: return "SIGILL"; default: return "SIG?"; }
 }
 
+#if defined(__has_feature)
+#if __has_feature(address_sanitizer)
+#define SIM_SANITIZED 1
+#endif
+#endif
+#ifdef SIM_SANITIZED
+extern "C" void __ubsan_get_current_report_data(const char** OutIssueKind, const char** OutMessage,
+    const char** OutFilename, unsigned* OutLine, unsigned* OutCol, char** OutMemoryAddr);
+extern "C" void __ubsan_on_report(void) {
+  const char *kind = "", *msg = "", *file = "";
+  unsigned line = 0, col = 0;
+  char* addr = nullptr;
+  __ubsan_get_current_report_data(&kind, &msg, &file, &line, &col, &addr);
+  if (sim::g_ub.pending) return;   // first report of the op wins
+  sim::g_ub.pending = true;
+  snprintf(sim::g_ub.kind, sizeof sim::g_ub.kind, "%s", kind ? kind : "");
+  snprintf(sim::g_ub.msg, sizeof sim::g_ub.msg, "%s", msg ? msg : "");
+  snprintf(sim::g_ub.file, sizeof sim::g_ub.file, "%s", file ? file : "");
+  sim::g_ub.line = line;
+}
+#endif
+
 static bool readTraceFile(const char* path, Trace& tr) {
   FILE* f = strcmp(path, "-") == 0 ? stdin : fopen(path, "r");
   if (!f) return false;
@@ -166,6 +188,7 @@ int main(int argc, char** argv) {
       } else if (strcmp(argv[a], "--bitmap") == 0 && a + 1 < argc) { bm = &bitmap; bitmap.path = argv[++a]; }
     }
     installCrashRecovery();
+    g_ubCollect = true;
     Coverage cov;
     uint64_t runs = 0, nontrivial = 0, digest = 0;
     int reported = 0;
@@ -177,7 +200,7 @@ int main(int argc, char** argv) {
       Trace tr;
       if (!generate(profile, seed, tr)) { fprintf(stderr, "unknown profile\n"); return 2; }
       Verdict v; bool nt = false;
-      g_curOp = -1;
+      g_curOp = -1; g_curRun = i; g_curSeed = seed;
       if (sigsetjmp(g_jmp, 1) == 0) {
         g_armed = 1;
         execute(tr, v, cov, nt, bm);
